@@ -22,7 +22,7 @@ mod verif_kani_blte_build {
     /// build() hands the builder's chunks to the file unchanged and in order - the positions the
     /// encrypted chunks were keyed to stay their positions - and the chunk table is truthful
     #[kani::proof]
-    #[kani::unwind(5)]
+    #[kani::unwind(18)]
     #[kani::stub(cascette_crypto::md5::ContentKey::from_data, toy_content_key)]
     fn build_keeps_chunks_and_table_truthful() {
         let e: [u8; 2] = kani::any();
